@@ -1,6 +1,7 @@
 package main
 
 import (
+	"time"
 	"github.com/polydawn/refmt/misc"
 	"context"
 	"fmt"
@@ -296,8 +297,30 @@ func packenvBigDir(c *Ctx, op string) {
 	} else if ga != want {
 		c.PropFail("pack-env", fmt.Sprintf("a fileset with a directory of %d entries packs to %s; the reference tree hash of the whole fileset is %s", n, ga, want), op)
 	}
+	// C04 through the walk: a change to any one of the entries (bytes of the same length, a permission bit, presence)
+	// changes the id — wherever the entry sits in the kernel's listing order
+	if strings.HasPrefix(ga, "ok ") {
+		for _, i := range []int{0, n / 7, n / 3, n / 2, n - n/5, n - 1} {
+			victim := filepath.Join(a, fmt.Sprintf("big/f%05d", i))
+			pdir := filepath.Join(a, "big")
+			st, _ := os.Stat(pdir)
+			os.Chmod(victim, 0600)
+			os.Chtimes(victim, time.Unix(1e9, 0), time.Unix(1e9, 0))
+			if st != nil {
+				os.Chtimes(pdir, st.ModTime(), st.ModTime())
+			}
+			if g2 := pk(a); g2 == ga {
+				c.PropFail("collision", fmt.Sprintf("in a directory of %d entries, changing the permission bits of f%05d leaves the packed id unchanged", n, i), op)
+				break
+			}
+			os.Chmod(victim, 0644)
+			os.Chtimes(victim, time.Unix(1e9, 0), time.Unix(1e9, 0))
+		}
+	}
 	c.EmitR(op, "skip", "skip")
 }
+
+func init() { engines["bigdir"] = func(c *Ctx) { packenvBigDir(c, "packenv-bigdir 5000") } }
 
 func packenvEngine(c *Ctx) {
 	if ls := replayLines(); ls != nil {
